@@ -175,6 +175,40 @@ func ruleRelinkBoth(c *Ctx, r *Rep, tier string) {
 			r.Check(why == "", rule, key, c.Pos(st.Pos()), fmt.Sprintf("rec.%s = refLinks[source][rec.%s.ID()] under rec.%s != nil", f.Name(), f.Name(), f.Name()), why)
 		})
 	}
+	// each field is relinked whenever it is set and there is a link table: no way
+	// from the entry to a return avoids the store, other than over the "no table"
+	// edge or the field's own "== nil" edge (added after a second-round seed: an
+	// early return for rec.Ref == nil skipped the mate of unplaced reads)
+	if relink := c.FuncOpt("bam", "(*Merger).reassignReference"); relink != nil {
+		for _, f := range []*types.Var{refF, mateF} {
+			f := f
+			r.Instance(rule, 1)
+			skipEdge := map[[2]*ssa.BasicBlock]bool{}
+			for _, b := range relink.Blocks {
+				ce, ok := classifyErrIf(b, func(v ssa.Value) bool {
+					lf, _ := loadedField(v)
+					return lf == f || lf == linksF
+				})
+				if ok && ce.isNil {
+					skipEdge[[2]*ssa.BasicBlock{b, b.Succs[ce.yes]}] = true
+				}
+			}
+			isStore := func(ins ssa.Instruction) bool {
+				st, ok := ins.(*ssa.Store)
+				if !ok {
+					return false
+				}
+				fa, ok := st.Addr.(*ssa.FieldAddr)
+				return ok && fieldVarOfAddr(fa) == f
+			}
+			bad, found := pathTo(entryLoc(relink), isReturn, isStore, func(from, to *ssa.BasicBlock) bool { return !skipEdge[[2]*ssa.BasicBlock{from, to}] })
+			pos := c.Pos(relink.Pos())
+			if found {
+				pos = c.Pos(bad.Pos())
+			}
+			r.Check(!found, rule, "bam.(*Merger).reassignReference#always-"+f.Name(), pos, "with a link table and a non-nil "+f.Name()+", every path stores the linked reference", fmt.Sprintf("reassignReference can return without relinking a non-nil %s (a test of something else – e.g. the record's other reference – decides it): such records leave the Merger pointing into their source header", f.Name()))
+		}
+	}
 	for _, f := range []*types.Var{refF, mateF} {
 		r.Instance(rule, 1)
 		r.Check(found[f] > 0, rule, "bam.Merger#relinks-"+f.Name(), "bam/merger.go", "a link store for "+f.Name()+" exists", fmt.Sprintf("no code in bam/merger.go replaces Record.%s by the merged header's reference: records leave the Merger pointing into their source header (wrong ID, foreign owner)", f.Name()))
